@@ -434,6 +434,9 @@ func (w *World) CompleteTasks() error {
 					if err := w.Deliver(); err != nil {
 						return err
 					}
+					if len(w.Panics) > 0 {
+						return fmt.Errorf("the follower died: %s", w.Panics[0])
+					}
 				}
 			}
 			if role == "B" {
